@@ -86,6 +86,8 @@ func goSpec(t Transform, prim map[string]Obj, src func(n int) map[string]Obj) ma
 		keys := []string{i.NS + "/" + i.Name}
 		if t.Multi {
 			keys = i.Outs
+		} else if t.ByVal {
+			keys = []string{"val/" + i.Val}
 		}
 		for _, k := range keys {
 			res[k] = Out{Key: k, NS: i.NS, Val: val}
